@@ -50,6 +50,7 @@ import M4riProofs.Top
 import M4riProofs.EchelonTop
 import M4riProofs.GenTie
 import M4riProofs.GenTieAlg
+import M4riProofs.GenTieDuff
 namespace M4ri.Props.C02
 open M4ri M4ri.BMat
 
@@ -250,5 +251,10 @@ theorem c_text_naive_gauss (M : Mzd) (full : Bool) (hwf : M.WF) (hp : M.padZero)
   · rw [hres, naive_rank hB full]
   · rw [hres]
   · intro hf; subst hf; exact naive_rref hB
+
+
+/-! ### tie to the C text: kernels with Duff devices (generated by vlib/ctrans.py on every check, proved equal to the model in
+    GenTieDuff.lean; `duff_eq`: first pass from the entry label + complete passes = `wide` single steps) -/
+#check @M4ri.GenTieDuff.mzdProcessRows_eq_contract
 
 end M4ri.Props.C02
